@@ -440,6 +440,10 @@ impl<G: Getter<Quantity, E> + ?Sized, E: Copy + Debug> Updatable<E> for Derivati
         let prev_output = match self.prev_output {
             Some(some) => some,
             None => {
+                //The input has recovered, so an error from an earlier update must not linger.
+                if self.value.is_err() {
+                    self.value = Ok(None);
+                }
                 self.prev_output = Some(output);
                 return Ok(());
             }
@@ -496,6 +500,10 @@ impl<G: Getter<Quantity, E> + ?Sized, E: Copy + Debug> Updatable<E> for Integral
         let prev_output = match self.prev_output {
             Some(some) => some,
             None => {
+                //The input has recovered, so an error from an earlier update must not linger.
+                if self.value.is_err() {
+                    self.value = Ok(None);
+                }
                 self.prev_output = Some(output);
                 return Ok(());
             }
